@@ -8,6 +8,7 @@ import pcommon
 from cxxheaderparser.simple import parse_string
 from cxxheaderparser.errors import CxxParseError
 
+TECHNIQUE = 'Lean 4: formatter equations for every type tree on the format model, tied by correspondence to types.py; parse(format t) = t decided by a round-trip oracle on the implementation (not a theorem)'
 LEAN_TARGET = "CxxModel.Props.C17"
 THEOREMS = ["Cxx.C17_decl_type", "Cxx.C17_decl_array", "Cxx.C17_decl_ptr_plain", "Cxx.C17_decl_ptr_array", "Cxx.C17_decl_ref_array",
             "Cxx.C17_fmt_plain_ptr", "Cxx.C17_fmt_mref", "Cxx.C17_ptr_cv_both"]
